@@ -23,3 +23,79 @@ func PinnedArrayAssign(name string) *Case {
 	c.Feature("tag", "array-assign,pinned")
 	return c
 }
+
+func simpleConv(conv *Package, name, format string, lines []string, methods ...*Method) *Converter {
+	cv := &Converter{Pkg: conv, File: "conv.go", Name: name, Format: format, Lines: lines, OutPkgPath: conv.Path + "/generated", OutPkgName: "generated", ImplName: name + "Impl"}
+	cv.Methods = methods
+	cv.Spec = &vref.Spec{Seed: 1, NValues: 6, Monitors: []string{"value"}}
+	return cv
+}
+
+func method1(name string, s, t *Type) *Method {
+	return &Method{Name: name, Params: []Param{{Name: "source", T: s, Role: "source"}}, Result: t,
+		Spec: &vref.MethodSpec{Name: name, Roles: []string{"source"}}}
+}
+
+// PinnedPkgShadow reproduces F-C01-pkg-shadow: the user's package is called like a local
+// identifier of the emitted function, so the parameter shadows the import.
+func PinnedPkgShadow(name string) *Case {
+	c := &Case{Name: name, Root: "vcase/" + name}
+	src := &Package{Path: "source", Name: "source"}
+	tgt := &Package{Path: "tgt", Name: "tgt"}
+	conv := &Package{Path: "conv", Name: "conv"}
+	s := &Decl{Pkg: src, Name: "In", Under: Struct(F("V", Basic("int")))}
+	t := &Decl{Pkg: tgt, Name: "Out", Under: Struct(F("V", Basic("int")))}
+	src.Decls = []*Decl{s}
+	tgt.Decls = []*Decl{t}
+	c.Pkgs = []*Package{src, tgt, conv}
+	c.Convs = []*Converter{simpleConv(conv, "Converter", "struct", nil, method1("M0", Named(s), Named(t)))}
+	c.Patterns = []string{"./conv"}
+	c.Feature("tag", "pkg:source,pinned")
+	return c
+}
+
+// PinnedHelperRedeclared reproduces F-C01-helper-redeclared: two function-format converters that
+// write two files of one package both emit the helper for the same nested pair.
+func PinnedHelperRedeclared(name string) *Case {
+	c := &Case{Name: name, Root: "vcase/" + name}
+	src := &Package{Path: "src", Name: "src"}
+	tgt := &Package{Path: "tgt", Name: "tgt"}
+	conv := &Package{Path: "conv", Name: "conv"}
+	si := &Decl{Pkg: src, Name: "Inner", Under: Struct(F("V", Basic("int")))}
+	ti := &Decl{Pkg: tgt, Name: "Inner", Under: Struct(F("V", Basic("int")))}
+	sa := &Decl{Pkg: src, Name: "A", Under: Struct(F("I", Named(si)))}
+	ta := &Decl{Pkg: tgt, Name: "A", Under: Struct(F("I", Named(ti)))}
+	sb := &Decl{Pkg: src, Name: "B", Under: Struct(F("I", Named(si)), F("N", Basic("string")))}
+	tb := &Decl{Pkg: tgt, Name: "B", Under: Struct(F("I", Named(ti)), F("N", Basic("string")))}
+	src.Decls = []*Decl{si, sa, sb}
+	tgt.Decls = []*Decl{ti, ta, tb}
+	c.Pkgs = []*Package{src, tgt, conv}
+	c1 := simpleConv(conv, "Converter", "function", nil, method1("M0", Named(sa), Named(ta)))
+	c2 := simpleConv(conv, "Converter2", "function", []string{"output:file ./generated/second.go"}, method1("K1M0", Named(sb), Named(tb)))
+	c.Convs = []*Converter{c1, c2}
+	c.Patterns = []string{"./conv"}
+	c.Feature("tag", "multi-file-pkg,pinned")
+	return c
+}
+
+// PinnedSkipCopyAddr reproduces the fixed finding "skipCopySameType + T -> *T takes the address of a
+// source field": *In{L []int} -> *Out{L *[]int}.
+func PinnedSkipCopyAddr(name string) *Case {
+	c := &Case{Name: name, Root: "vcase/" + name}
+	src := &Package{Path: "src", Name: "src"}
+	tgt := &Package{Path: "tgt", Name: "tgt"}
+	conv := &Package{Path: "conv", Name: "conv"}
+	s := &Decl{Pkg: src, Name: "In", Under: Struct(F("L", Slice(Basic("int"))), F("E", Slice(Map(Basic("string"), Basic("int")))))}
+	t := &Decl{Pkg: tgt, Name: "Out", Under: Struct(F("L", Ptr(Slice(Basic("int")))), F("E", Slice(Ptr(Map(Basic("string"), Basic("int"))))))}
+	src.Decls = []*Decl{s}
+	tgt.Decls = []*Decl{t}
+	c.Pkgs = []*Package{src, tgt, conv}
+	cv := simpleConv(conv, "Converter", "struct", []string{"skipCopySameType"}, method1("M0", Ptr(Named(s)), Ptr(Named(t))))
+	cv.Methods[0].Spec.Flags.SkipCopy = true
+	cv.Spec = &vref.Spec{Seed: 1, NValues: 12, Monitors: []string{"value", "intact", "alias", "mutate"}, Conv: vref.Flags{SkipCopy: true}}
+	c.Convs = []*Converter{cv}
+	c.Patterns = []string{"./conv"}
+	c.Feature("tag", "pinned")
+	c.Feature("skipcopy", "true")
+	return c
+}
